@@ -16,6 +16,9 @@ def run(ses):
 
     cases = CASES_QUICK if ses.tier == "quick" else CASES_THOROUGH
     run_cases(ses, "props.arraychain", "case_getitem", cases)
+    from props import arraychain as _ac
+
+    _ac.resolve_limits(ses)
     arraychain.trusted(ses)
     arraychain.bounded_getitem(ses, "C02")
     arraychain.bounded_xarray_indexing(ses, "C02")
